@@ -609,6 +609,8 @@ def minimise_item(item, still_fails, budget=24):
             c = copy.deepcopy(it); c["opts"] = {}; yield c
         if it.get("entry", "proto") != "proto":
             c = copy.deepcopy(it); c["entry"] = "proto"; yield c
+        if it.get("api", "optimize") != "optimize":
+            c = copy.deepcopy(it); c["api"] = "optimize"; yield c
         if it.get("vi"):
             c = copy.deepcopy(it); c["vi"] = False; yield c
         if "steps" not in it:
